@@ -462,11 +462,11 @@ func main() {
 	}
 	type loc struct {
 		g     *gg.Gen
-		reset func()
+		reset func(int)
 		calls int64
 	}
 	newLocal := func(int) interface{} {
-		next, reset := gg.Cyclic(special)
+		next, reset := gg.CyclicAt(special)
 		return &loc{g: &gg.Gen{K: 3, M: 2, Depth: 3, NilSlice: true, Next: next}, reset: reset}
 	}
 	total := func(st mc.Stats) {
@@ -480,7 +480,7 @@ func main() {
 	}
 	st := r.Explore("noncollection", "full product of the 8 non-collection kinds (k=3,m=2) x 2 byte orders x 10 SRIDs x all encoders / decode paths / framings / 11 destinations", mc.Opts{MaxDev: -1, Split: 3, NewLocal: newLocal}, func(c *mc.Ctx) {
 		l := c.Local().(*loc)
-		l.reset()
+		l.reset(c.Choose(len(special) / 2))
 		order := orders[c.Choose(2)]
 		srid := srids[c.Choose(len(srids))]
 		g := l.g.Kind(c, c.Choose(gg.KCollection), 0, true)
@@ -495,7 +495,7 @@ func main() {
 	dev := ev.Pick(r, 5, 7)
 	st = r.Explore("collections", fmt.Sprintf("collections nested to depth 3, all shapes within %d deviations (byte order and SRID choices included in the bound, defaults LE / absent)", dev), mc.Opts{MaxDev: dev, Split: 3, NewLocal: newLocal}, func(c *mc.Ctx) {
 		l := c.Local().(*loc)
-		l.reset()
+		l.reset(c.Choose(len(special) / 2))
 		order := orders[c.Choose(2)]
 		srid := srids[c.Choose(len(srids))]
 		g := l.g.Kind(c, gg.KCollection, 0, true)
